@@ -280,8 +280,11 @@ __sexy_add(dt_sexy_t sx, struct dt_dtdur_s dur)
 	case DT_DURNANO:
 		dv /= NANOS_PER_SEC;
 		break;
+	case DT_DURWK:
+		dv = (dt_ssexy_t)dur.d.dv * (int)GREG_DAYS_P_WEEK * SECS_PER_DAY;
+		dv += dur.t.sdur;
+		break;
 	case DT_DURD:
-	case DT_DURBD:
 		dv = (dt_ssexy_t)dur.d.dv * SECS_PER_DAY;
 		/*@fallthrough@*/
 	case DT_DURUNK:
@@ -1557,6 +1560,24 @@ dt_dtadd(struct dt_dt_s d, struct dt_dtdur_s dur)
 #endif	/* WITH_LEAP_SECONDS */
 
 	if (d.typ == DT_SEXY) {
+		switch (dur.durtyp) {
+		case DT_DURBD:
+		case DT_DURMO:
+		case DT_DURQU:
+		case DT_DURYR: {
+			/* calendar units need a calendar,
+			 * go through a ymd/hms sandwich and back */
+			struct dt_dt_s tmp = dt_dtconv((dt_dttyp_t)DT_YMD, d);
+
+			tmp = dt_dtadd(tmp, dur);
+			tmp.d = dt_dfixup(tmp.d);
+			tmp = dt_dtconv((dt_dttyp_t)DT_SEXY, tmp);
+			d.sexy = tmp.sexy;
+			return d;
+		}
+		default:
+			break;
+		}
 		d.sexy = __sexy_add(d.sexy, dur);
 		return d;
 	}
